@@ -147,9 +147,9 @@ DTNAMES = ['float', 'int', 'scaled', 'enum', 'bool', 'string', 'blob', 'tuple', 
 def _errors():
     from frappy.errors import CommunicationFailedError, HardwareError
     return {'e1': lambda: CommunicationFailedError('no reply'),
-            'e2': lambda: HardwareError('sensor broken'),
-            'e3': lambda: ValueError('odd'),
-            'e4': lambda: CommunicationFailedError('other text')}
+            'e2': lambda: CommunicationFailedError('other text'),     # same class as e1, other arguments
+            'e3': lambda: ValueError('odd'),                           # not a SECoPError
+            'e4': lambda: HardwareError('sensor broken')}
 
 
 def typed(x):
@@ -1014,7 +1014,8 @@ def run(chk):
         n = 120 if quick else 3000
         thr = pool_map(_threaded_trace, [(chk.seed * 1000003 + i, 2 + i % 2, 3 if quick else 4) for i in range(n)])
         phase['drivers'] = round(_time.time() - t0, 1)
-        f_tr = [ex.submit(_validate, seq), ex.submit(_validate, thr)]
+        probes = _corrupted(seq)
+        f_tr = [ex.submit(_validate, seq + [p for p, _ in probes]), ex.submit(_validate, thr)]
 
         # 2 spec -> code
         nshape = 1 if quick else 2
@@ -1053,6 +1054,13 @@ def run(chk):
 
         for mode, recs, f in (('seq', seq, f_tr[0]), ('thr', thr, f_tr[1])):
             _judge(chk, recs, mode, f.result())
+        # binding self-test: the corrupted copies of recorded traces must be rejected at the corrupted event
+        verdicts = f_tr[0].result()[0]
+        for k, (_, at) in enumerate(probes):
+            v = verdicts[len(seq) + k]
+            if v is None or v[0] != at:
+                raise MachineryError(f'Trace_ParamCache accepts a corrupted trace (probe {k}, corrupted at {at}): {v}')
+        chk.notes['corrupted_traces_rejected'] = len(probes)
     chk.sample({'threaded_schedule': thr[0]['sched'], 'scripts': thr[0]['scripts']}, limit=6)
     chk.notes['threaded_runs_with_lock_contention'] = {
         k: sum(1 for r in thr if r['blocked'][k]) for k in ('accessLock', 'updateLock')}
@@ -1064,6 +1072,29 @@ def run(chk):
     phase['total'] = round(_time.time() - t00, 1)
 
 
+def _corrupted(recs):
+    """copies of recorded traces with one field changed / one delivery dropped -> [(record, position 1-based)]"""
+    res = []
+    for r in recs:
+        tr = r['trace']
+        for l, ev in enumerate(tr[1:6], 2):
+            p = ev['op']['p']
+            if ev['op']['a'] in ('Activate', 'Tick') or not ev['o']['c1'].get(p):
+                continue
+            a = json.loads(json.dumps(tr))
+            a[l - 1]['c'][p][2] += 1                       # wrong stamp in the cache
+            res.append(({'trace': a}, l))
+            b = json.loads(json.dumps(tr))
+            b[l - 1]['o']['c1'][p] = []                    # a delivery is missing
+            res.append(({'trace': b}, l))
+            break
+        if len(res) >= 4:
+            break
+    if not res:
+        raise MachineryError('no recorded trace suitable for the corruption self-test')
+    return res
+
+
 def _validate(recs):
     return validate_traces('Trace_ParamCache', [_strip(r['trace']) for r in recs], 'Trace_ParamCache.cfg', timeout=1100)
 
@@ -1073,6 +1104,8 @@ def _judge(chk, recs, mode, result):
     chk.states += st
     chk.transitions += tr
     for i, v in verdicts.items():
+        if i >= len(recs):
+            continue            # corruption probes, judged by the caller
         chk.impl_traces += 1
         chk.case(f'{mode}{i}', True)
         if v is not None:
